@@ -115,6 +115,11 @@ func zzA13VerifyFinished(_ func() hash.Hash, baseKey, transcriptHash, verifyData
 
 func zzA13Sum256(b []byte) [32]byte {
 	var out [32]byte
+	if n := len(b); n > 4096 {
+		copy(out[:], zzsymUF("fingerprintLong", 32, []byte{byte(n >> 16), byte(n >> 8), byte(n)}, b[:64], b[n-64:]))
+
+		return out
+	}
 	copy(out[:], zzsymUF("fingerprint", 32, b))
 
 	return out
@@ -129,7 +134,16 @@ func (h *zzA13Hash) Reset()                      { h.buf = nil }
 func (h *zzA13Hash) Size() int                   { return 4 }
 func (h *zzA13Hash) BlockSize() int              { return 8 }
 
-func zzA13TH(data []byte) []byte { return zzsymUF("TranscriptHash", 4, data) }
+// Long inputs (only the big-chain entry produces them) are abstracted to (length, first 64 bytes, last 64 bytes):
+// an uninterpreted function of the whole 64 KiB vector is beyond the solver's term size; the big-chain entry asserts
+// only which certificate list is reported and handed to the verifiers, not transcript coverage.
+func zzA13TH(data []byte) []byte {
+	if n := len(data); n > 4096 {
+		return zzsymUF("TranscriptHashLong", 4, []byte{byte(n >> 16), byte(n >> 8), byte(n)}, data[:64], data[n-64:])
+	}
+
+	return zzsymUF("TranscriptHash", 4, data)
+}
 
 func zzA13NewHash() hash.Hash { return &zzA13Hash{} }
 
@@ -196,6 +210,7 @@ type zzA13Scenario struct {
 	kinds        []int
 	canon        [][]byte // canonical (TLS 1.3) form of each pushed message
 	payload      [][]byte // per message: cert_data / signature / verify_data (nil otherwise)
+	chain        [][]byte // presented certificate_list when the Certificate was stored by zzA13PushChain
 	certs        [][]byte // certificate list of the flight's Certificate message (set by zzA13Flight)
 	cvSig        []byte
 	verifyData   []byte
@@ -230,14 +245,33 @@ func zzA13Body(kind int) (typ handshake.Type, body, payload []byte) {
 // (msg_type length(3) body, RFC 9147 5.2).
 func zzA13Push(sc *zzA13Scenario, kind int) {
 	typ, body, payload := zzA13Body(kind)
+	zzA13PushBody(sc, kind, typ, body, payload)
+}
+
+func zzA13PushBody(sc *zzA13Scenario, kind int, typ handshake.Type, body, payload []byte) {
 	seq := sc.state.HandshakeRecvSequence + len(sc.kinds)
 	n := len(body)
-	raw := []byte{byte(typ), 0, 0, byte(n), byte(seq >> 8), byte(seq), 0, 0, 0, 0, 0, byte(n)}
+	raw := []byte{byte(typ), byte(n >> 16), byte(n >> 8), byte(n), byte(seq >> 8), byte(seq), 0, 0, 0, byte(n >> 16), byte(n >> 8), byte(n)}
 	raw = append(raw, body...)
 	sc.cache.Push(raw, dtlsflight13.EpochHandshake, uint16(seq), typ, sc.peerIsClient)
 	sc.kinds = append(sc.kinds, kind)
 	sc.payload = append(sc.payload, payload)
-	sc.canon = append(sc.canon, append([]byte{byte(typ), 0, 0, byte(n)}, body...))
+	sc.canon = append(sc.canon, append([]byte{byte(typ), byte(n >> 16), byte(n >> 8), byte(n)}, body...))
+}
+
+// zzA13PushChain stores a Certificate message whose certificate_list has one entry per element of certs (RFC 8446
+// 4.4.2: context<0>, certificate_list{ cert_data<1..2^24-1>, extensions<0..2^16-1> = empty } ...), recorded as kind
+// zzA13Cert with the presented list in sc.chain.
+func zzA13PushChain(sc *zzA13Scenario, certs [][]byte) {
+	var list []byte
+	for _, c := range certs {
+		list = append(list, byte(len(c)>>16), byte(len(c)>>8), byte(len(c)))
+		list = append(list, c...)
+		list = append(list, 0, 0)
+	}
+	body := append([]byte{0, byte(len(list) >> 16), byte(len(list) >> 8), byte(len(list))}, list...)
+	sc.chain = certs
+	zzA13PushBody(sc, zzA13Cert, handshake.TypeCertificate, body, nil)
 }
 
 func zzA13Build(peerIsClient, skipVerify, callbacks bool) *zzA13Scenario {
@@ -388,6 +422,9 @@ func zzA13CheckAccepted(sc *zzA13Scenario) {
 	}
 	if iCert >= 0 {
 		sc.certs = [][]byte{sc.payload[iCert]}
+		if sc.chain != nil {
+			sc.certs = sc.chain
+		}
 	}
 	if iCV >= 0 {
 		sc.cvSig = sc.payload[iCV]
@@ -568,6 +605,48 @@ func zzHs13ClientFlight() {
 		zzA13Push(sc, zzA13Fin)
 	}
 	zzHs13Judge(sc)
+}
+
+// Both DTLS 1.3 roles, certificate chains whose total size crosses 2^16 bytes (round 9 left this outside the
+// bounds; seed C01h-2): the flight EncryptedExtensions (server only), Certificate, CertificateVerify, Finished
+// where the certificate_list has 2 or 3 entries - a leaf of 65533, 65534 or 70000 bytes (fixed filler, one
+// arbitrary byte in the middle) followed by one or two arbitrary 2-byte certificates, so the running total is
+// 65535, 65536 or beyond after the second entry -, every verification succeeding or not. Same predicate as the
+// small entries; the part that matters here: state.PeerCertificates and the lists handed to CertificateVerify,
+// the chain check and the callbacks are the WHOLE presented list. The transcript hash of inputs above 4 KiB is
+// abstracted (zzA13TH), so transcript coverage is not claimed by this entry.
+//
+//symgo:entry covers=big_chain_accepted_client_view,big_chain_accepted_server_view,big_chain_rejected
+func zzHs13BigChain() {
+	peerIsClient := zzsymChoice("peer_is_client", 2) == 1
+	sc := zzA13Build(peerIsClient, false, zzsymChoice("callbacks", 2) == 1)
+	leafLen := []int{65533, 65534, 70000}[zzsymChoice("leaf_len", 3)]
+	leaf := make([]byte, leafLen)
+	for i := range leaf {
+		leaf[i] = byte(i*7 + 1)
+	}
+	leaf[leafLen/2] = zzsymU8("leaf_mark")
+	certs := [][]byte{leaf, zzsymBytes("intermediate", 2)}
+	if zzsymChoice("entries", 2) == 1 {
+		certs = append(certs, zzsymBytes("root", 2))
+	}
+	if !peerIsClient {
+		zzA13Push(sc, zzA13EE)
+	}
+	zzA13PushChain(sc, certs)
+	zzA13Push(sc, zzA13CV)
+	zzA13Push(sc, zzA13Fin)
+	if !zzA13Run(sc) {
+		zzsymCover("big_chain_rejected")
+
+		return
+	}
+	zzA13CheckAccepted(sc)
+	if peerIsClient {
+		zzsymCover("big_chain_accepted_server_view")
+	} else {
+		zzsymCover("big_chain_accepted_client_view")
+	}
 }
 
 // Both DTLS 1.3 roles, EVERY sequence of 1..HSSEQ messages (quick 4, thorough 5) drawn with repetition from
